@@ -1119,6 +1119,27 @@ func (e *Engine) callBuiltin(st *State, th *Thread, name string, args []Value, r
 			return ret(BVC(uint64(st.Heap[x.Obj].(*ChanObj).Cap), 64))
 		}
 	case "append":
+		// []byte text views: append(nil-or-empty, view...) is the view; view ++ view concatenates
+		if b1, ok := args[1].(Bytes); ok {
+			switch a0 := args[0].(type) {
+			case Slice:
+				if a0.Len == 0 {
+					return ret(b1)
+				}
+			case Bytes:
+				return ret(Bytes{S: StrConcat(a0.S, b1.S)})
+			}
+			panic(unsupported("append of a []byte text view to a non-empty byte slice"))
+		}
+		if b0, ok := args[0].(Bytes); ok {
+			if s1, ok := args[1].(Slice); ok && s1.Len == 0 {
+				return ret(b0)
+			}
+			if t1, ok := args[1].(*Term); ok {
+				return ret(Bytes{S: StrConcat(b0.S, t1)})
+			}
+			panic(unsupported("append to a []byte text view"))
+		}
 		s := args[0].(Slice)
 		var add []Value
 		var et types.Type
